@@ -236,6 +236,107 @@ def renumber(rng, m):
     return map_vars(m, lambda v: ren[canon(v)])
 
 
+LOOKALIKES = ["ARG0", "ARG1", "RSTR", "BODY", "CARG", "MOD", "EQ", "NEQ", "H", "HEQ", "0", "-1", "10000", "10001",
+              "", "_", "_0", "q5", "\"x\"", "h0", "h1", "h2", "x1", "x2", "e1", "e2", "u1", "i1", "p1", "lheq", "qeq"]
+
+
+def lookalike_pool(m):
+    """texts that look like syntax: the MRS's own variable names (intrinsic variables, labels, holes,
+    the top), names the VariableFactory of from_dmrs / DMRS.scopes hands out (h/x/e/u + small numbers),
+    role / post / relation names, node-id-like numbers, the empty string"""
+    own = ["%s%d" % (v[0], v[1]) for v in all_vars(m)]
+    return own, LOOKALIKES
+
+
+def decorate_lookalike(rng, m, p_carg=0.5):
+    """constants (CARG), predicates and property values whose TEXT is a valid variable / role / post name.
+    Arguments are classified by role, never by the shape of the value: nothing may change."""
+    m = copy.deepcopy(m)
+    own, other = lookalike_pool(m)
+
+    def pick():
+        return rng.choice(own) if own and rng.random() < 0.6 else rng.choice(other)
+    for e in m["rels"]:
+        if rng.random() < p_carg:
+            e["carg"] = pick()
+        if rng.random() < 0.15 and not any(r == "RSTR" for r, _ in e["args"]):
+            e["pred"] = pick() or "_x_n_1"
+    for i, (v, ps) in enumerate(m["vars"]):
+        if rng.random() < 0.4:
+            m["vars"][i] = [v, [[k, pick()] for k, _ in ps]]
+    if rng.random() < 0.3:
+        ivs = [a[1] for e in m["rels"] for a in e["args"] if a[0] == "ARG0"]
+        have = [canon(v) for v, _ in m["vars"]]
+        for iv in ivs:
+            if canon(iv) not in have and rng.random() < 0.5:
+                m["vars"].append([iv, [[rng.choice(["TENSE", "PERS", "x5", "ARG1"]), pick()]]])
+                have.append(canon(iv))
+    return m
+
+
+def lookalike_block():
+    """deterministic: on two base structures, every look-alike text as the CARG of every predication
+    (one at a time), and the structures' own names as predicate and property value"""
+    base = [c for c in curated_base() if c[0] in ("quantified", "coordination", "twins-nontop-first")]
+    for name, m in base:
+        own, other = lookalike_pool(m)
+        for k in range(len(m["rels"])):
+            for txt in own + other:
+                mm = copy.deepcopy(m)
+                mm["rels"][k]["carg"] = txt
+                yield mm
+        for txt in own + ["ARG1", "RSTR", "MOD", "h1", "x1", "e2"]:
+            mm = copy.deepcopy(m)
+            for e in mm["rels"]:
+                if not any(r == "RSTR" for r, _ in e["args"]):
+                    e["pred"] = txt
+                    break
+            mm["vars"] = [[v, [[k, txt] for k, _ in ps]] for v, ps in mm["vars"]]
+            yield mm
+
+
+def curated_base():
+    """named structures used by the deterministic blocks"""
+    h = lambda k: ["h", k]                      # noqa: E731
+    x = lambda k: ["x", k]                      # noqa: E731
+    e = lambda k: ["e", k]                      # noqa: E731
+
+    def ep(pred, lbl, iv, *args, carg=None):
+        d = _ep(pred, lbl, iv)
+        d["args"] += [list(a) for a in args]
+        d["carg"] = carg
+        return d
+
+    def M(rels, hcons, index=None, vars_=(), top=h(0)):
+        return {"top": top, "index": index, "rels": rels, "hcons": [list(c) for c in hcons],
+                "icons": [], "vars": [list(v) for v in vars_]}
+    T = [h(0), "qeq", h(1)]
+    out = []
+    out.append(("quantified", M(
+        [ep("_the_q", h(4), x(3), ("RSTR", h(5)), ("BODY", h(6))), ep("_big_a_1", h(7), e(8), ("ARG1", x(3))),
+         ep("named", h(7), x(3), carg="Kim"), ep("_bark_v_1", h(1), e(2), ("ARG1", x(3)), ("ARG2", ["i", 9]))],
+        [T, [h(5), "qeq", h(7)]], e(2), vars_=[[x(3), [["PERS", "3"]]], [e(2), [["TENSE", "past"]]]])))
+    # ERG-style coordination: _and_c with L-INDEX/R-INDEX and L-HNDL/R-HNDL, sharing its label with a modifier
+    out.append(("coordination", M(
+        [ep("_and_c", h(1), e(2), ("L-INDEX", e(4)), ("R-INDEX", e(6)), ("L-HNDL", h(3)), ("R-HNDL", h(5))),
+         ep("_again_a_1", h(1), e(8), ("ARG1", e(2))),
+         ep("_bark_v_1", h(7), e(4), ("ARG1", ["i", 10])), ep("_run_v_1", h(9), e(6), ("ARG1", ["i", 10]))],
+        [T, [h(3), "qeq", h(7)], [h(5), "qeq", h(9)]], e(2), vars_=[[e(4), [["TENSE", "past"]]], [e(6), [["TENSE", "past"]]]])))
+    # the same with the handles given directly as labels (no handle constraints)
+    out.append(("coordination-heq", M(
+        [ep("_and_c", h(1), e(2), ("L-INDEX", e(4)), ("R-INDEX", e(6)), ("L-HNDL", h(7)), ("R-HNDL", h(9))),
+         ep("_again_a_1", h(1), e(8), ("ARG1", e(2))),
+         ep("_bark_v_1", h(7), e(4)), ep("_bark_v_1", h(9), e(6))],
+        [T], e(2))))
+    # predications equal in predicate/type/properties/carg in different scopes, the non-top copy first
+    out.append(("twins-nontop-first", M(
+        [ep("neg", h(4), e(2)), ep("neg", h(1), e(5), ("ARG1", h(3)))], [T, [h(3), "qeq", h(4)]], e(5))))
+    out.append(("twins-nontop-first-carg", M(
+        [ep("named", h(4), x(2), carg="Kim"), ep("_and_c", h(1), x(6), ("L-INDEX", x(2)), ("R-INDEX", x(5))),
+         ep("named", h(1), x(5), carg="Kim")], [T], x(6), vars_=[[x(2), [["PERS", "3"]]], [x(5), [["PERS", "3"]]]])))
+    return out
+
+
 def curated():
     """the deterministic small space: every attachment kind on 1-3 predications"""
     h = lambda k: ["h", k]                      # noqa: E731
@@ -588,7 +689,7 @@ ERRS = (KeyError, IndexError, mrs.MRSError, dmrs.DMRSError, ValueError, Assertio
 
 class C04(Check):
     pid = "C04"
-    props_modules = ["Verif.C04.Props", "Verif.C04.PropsRT"]
+    props_modules = ["Verif.C04.Props", "Verif.C04.PropsRT", "Verif.C04.PropsIso"]
     quick_cases = 4000
     thorough_cases = 40000
     rule = ("(a) 19 curated structures of 0-5 predications, one per attachment kind (modifier, label sharing without "
@@ -599,7 +700,15 @@ class C04(Check):
             "repeated, 70% shuffled predication order, 70% renumbered variables (small/wide ranges, ids colliding across "
             "sorts), 3% with a mutual-argument scope (F08 class); (c) semgen.gen_mrs_tree and one-step mutations of "
             "(b)/(c) (dangling handles, dropped constraints, shared IVs, relabelled EPs); (d) semgen.gen_mrs_wild "
-            "(arbitrary MRSs). The isomorphism / second-conversion / top / index clauses are evaluated on the inputs of "
+            "(arbitrary MRSs); (e) VALUES THAT LOOK LIKE SYNTAX: a deterministic block (451 cases) putting, one at a time, "
+            "every own variable name (intrinsic variables, labels, holes, the top), every name the variable factories hand "
+            "out (h0 h1 h2 x1 x2 e1 e2 u1 i1 p1), role/post/relation names (ARG0 ARG1 RSTR BODY CARG MOD EQ NEQ H HEQ lheq "
+            "qeq), 0 -1 10000 10001, the empty string, _ _0 q5 and a quoted \"x\" as the CARG of every predication of three "
+            "base structures (quantified noun with modifier, ERG-style coordination, equal predications with the non-top "
+            "copy first), and the same texts as predicate and property value; 30% of the gen_wf stream decorated the same "
+            "way after renumbering; (f) the named structures of curated_base() (coordination with L/R-INDEX + L/R-HNDL "
+            "sharing its label with a modifier, with qeq and with direct labels; twins in different scopes, non-top first, "
+            "with and without CARG) in every run. The isomorphism / second-conversion / top / index clauses are evaluated on the inputs of "
             "the property's space: is_well_formed, qeq constraints only, one constraint per hole, no constrained "
             "handle that is also a label, x/e/i/p/u intrinsic variables, pairwise distinct EP identifiers, every "
             "quantifier with RSTR selecting a scope and BODY, binding the intrinsic variable of the first representative "
@@ -713,6 +822,11 @@ class C04(Check):
         for m in curated():
             yield {"kind": "rt", "src": "curated", "m": m}
             yield {"kind": "rt", "src": "curated", "m": renumber(rng, m)}
+        for _, m in curated_base():
+            yield {"kind": "rt", "src": "curated", "m": m}
+            yield {"kind": "rt", "src": "curated", "m": renumber(rng, m)}
+        for m in lookalike_block():
+            yield {"kind": "rt", "src": "lookalike", "m": m}
         yield from self.random_cases(rng, n)
 
     def random_cases(self, rng, n, only=None):
@@ -721,7 +835,12 @@ class C04(Check):
             if only:
                 r = rng.choice([{"wf": 0.1, "tree": 0.65, "mut": 0.75, "wild": 0.95}[k] for k in only])
             if r < 0.62:
-                yield {"kind": "rt", "src": "wf", "m": gen_wf(rng)}
+                m = gen_wf(rng)
+                if rng.random() < 0.3:
+                    # values that look like syntax (after the renumbering, so that they still coincide)
+                    yield {"kind": "rt", "src": "lookalike", "m": decorate_lookalike(rng, m)}
+                else:
+                    yield {"kind": "rt", "src": "wf", "m": m}
             elif r < 0.72:
                 m = semgen.gen_mrs_tree(rng, mutual=0.05)
                 if rng.random() < 0.5:
@@ -737,6 +856,9 @@ class C04(Check):
 
     def search_cases(self, rng, tier, n, seeds):
         kinds = sorted({c.get("src") for c in seeds if c.get("src") in ("wf", "tree", "mut", "wild")})
+        for c in seeds[:10]:
+            for _ in range(10):
+                yield {"kind": "rt", "src": "lookalike", "m": decorate_lookalike(rng, c["m"])}
         for c in seeds[:20]:
             for _ in range(20):
                 yield {"kind": "rt", "src": "mut", "m": semgen.mutate_mrs(rng, c["m"])}
